@@ -1099,7 +1099,12 @@ func c10Gen(rng *rand.Rand, tier string) []core.Spec {
 	return out
 }
 
-func writerExecCount(sp *WriterSpec) int {
+func writerExecCount(sp *WriterSpec) (n int) {
+	defer func() {
+		if recover() != nil {
+			n = 0 // the program panics on this tree: no fault positions; the fault-free run reports it
+		}
+	}()
 	var log []wEvent
 	conn := &wConn{log: &log, failAt: -1}
 	c := websocket.VerifNewConn(conn, sp.Server, 0, sp.WBuf, nil, nil, sp.Negotiated)
